@@ -209,7 +209,7 @@ pub struct Req { pub entry: u8, pub text: String, pub valid_select: bool, pub up
 #[derive(Serialize, Deserialize, Clone, Debug)]
 pub struct HostileCase { pub hash_seed: u64, pub setup: Vec<UStep>, pub reqs: Vec<Req> }
 pub struct C17;
-pub const ENTRIES: [&str; 6] = ["execute_sparql_query", "execute_query_rayon_parallel2_volcano(SELECT)", "execute_sparql_update", "SparqlDatabase::execute_update", "SparqlDatabase::handle_update", "handle_http_request(GET query=)"];
+pub const ENTRIES: [&str; 10] = ["execute_sparql_query", "execute_query_rayon_parallel2_volcano(SELECT)", "execute_sparql_update", "SparqlDatabase::execute_update", "SparqlDatabase::handle_update", "handle_http_request(GET query=)", "handle_http_request(POST application/sparql-query)", "handle_http_request(POST form query=)", "handle_http_request(POST form update=)", "handle_http_request(POST application/sparql-update)"];
 
 const SELECTS: [&str; 8] = [
     "SELECT * WHERE { ?s ?p ?o }",
@@ -271,7 +271,7 @@ impl Prop for C17 {
             let base = if is_sel { r.pick(&SELECTS).to_string() } else { r.pick(&UPDATES).to_string() };
             let mutated = r.weighted(&[3, w_mut]) == 1;
             let text = if mutated { mutate(&mut r, &base) } else { base };
-            let entry = if !mutated && is_sel && r.chance(1, 4) { 1 } else { *r.pick(&[0u8, 0, 0, 2, 3, 4, 5]) };
+            let entry = if !mutated && is_sel && r.chance(1, 4) { 1 } else { *r.pick(&[0u8, 0, 0, 2, 3, 4, 5, 6, 7, 8, 9]) };
             reqs.push(Req { entry, text, valid_select: !mutated && is_sel, update_shaped: !mutated && !is_sel });
         }
         HostileCase { hash_seed: Rng::sub(seed, "hash").next(), setup, reqs }
@@ -282,13 +282,18 @@ impl Prop for C17 {
         for (i, rq) in c.reqs.iter().enumerate() {
             let before = raw_state(&db);
             let name = ENTRIES[rq.entry as usize % ENTRIES.len()];
-            let res: Result<Option<bool>, (String, String)> = guard(|| match rq.entry % 6 {
+            let pct = |t: &str| -> String { t.bytes().map(|b| format!("%{:02X}", b)).collect() };
+            let res: Result<Option<bool>, (String, String)> = guard(|| match rq.entry % 10 {
                 0 => Some(execute_sparql_query(&rq.text, &mut db).is_ok()),
                 1 => { let _ = execute_query_rayon_parallel2_volcano(&rq.text, &mut db); None }
                 2 => Some(execute_sparql_update(&rq.text, &mut db).is_ok()),
                 3 => Some(db.execute_update(&rq.text).is_ok()),
                 4 => Some(db.handle_update(&rq.text) != "Update Failed"),
-                _ => { let enc: String = rq.text.bytes().map(|b| format!("%{:02X}", b)).collect(); let http = format!("GET /sparql?query={} HTTP/1.1\r\nHost: x\r\n\r\n", enc); let out = db.handle_http_request(&http); Some(!out.contains("Query Failed")) }
+                5 => { let http = format!("GET /sparql?query={} HTTP/1.1\r\nHost: x\r\n\r\n", pct(&rq.text)); let out = db.handle_http_request(&http); Some(!out.contains("Query Failed")) }
+                6 => { let http = format!("POST /sparql HTTP/1.1\r\nHost: x\r\nContent-Type: application/sparql-query\r\n\r\n{}", rq.text); let out = db.handle_http_request(&http); Some(!out.contains("Query Failed")) }
+                7 => { let http = format!("POST /sparql HTTP/1.1\r\nHost: x\r\nContent-Type: application/x-www-form-urlencoded\r\n\r\nquery={}", pct(&rq.text)); let out = db.handle_http_request(&http); Some(!out.contains("Query Failed")) }
+                8 => { let http = format!("POST /sparql HTTP/1.1\r\nHost: x\r\nContent-Type: application/x-www-form-urlencoded\r\n\r\nupdate={}", pct(&rq.text)); let out = db.handle_http_request(&http); Some(!out.contains("Update Failed")) }
+                _ => { let http = format!("POST /sparql HTTP/1.1\r\nHost: x\r\nContent-Type: application/sparql-update\r\n\r\n{}", rq.text); let out = db.handle_http_request(&http); Some(!out.contains("Update Failed")) }
             });
             let short: String = rq.text.chars().take(120).collect();
             match res {
@@ -296,10 +301,10 @@ impl Prop for C17 {
                 Ok(ok) => {
                     ev!(ctx.log, "{} {} ok={:?} {:?}", i, name, ok, short);
                     let after = raw_state(&db);
-                    let query_path = matches!(rq.entry % 6, 0 | 1 | 5);
+                    let query_path = matches!(rq.entry % 10, 0 | 1 | 5 | 6 | 7);
                     if query_path && after != before { return Some(Violation::new("query-path-modified-data", format!("request {} through {} changed the stored quads or graph catalog; text = {:?}", i, name, short))); }
-                    if matches!(rq.entry % 6, 0 | 5) && rq.update_shaped && ok == Some(true) { return Some(Violation::new("update-accepted-on-query-path", format!("request {} through {}: update syntax was not refused; text = {:?}", i, name, short))); }
-                    if matches!(rq.entry % 6, 0 | 5) && rq.update_shaped { ctx.hit("fault.update_submitted_to_query_endpoint"); }
+                    if matches!(rq.entry % 10, 0 | 5 | 6 | 7) && rq.update_shaped && ok == Some(true) { return Some(Violation::new("update-accepted-on-query-path", format!("request {} through {}: update syntax was not refused; text = {:?}", i, name, short))); }
+                    if matches!(rq.entry % 10, 0 | 5 | 6 | 7) && rq.update_shaped { ctx.hit("fault.update_submitted_to_query_endpoint"); }
                     if !query_path && ok == Some(false) && after != before { return Some(Violation::new("failed-update-changed-dataset", format!("request {} through {} reported failure but the dataset changed; text = {:?}", i, name, short))); }
                     if ok == Some(false) { ctx.hit("fault.malformed_or_refused_request"); }
                     if !rq.text.is_ascii() { ctx.hit("fault.multibyte_request"); }
